@@ -279,6 +279,54 @@ def real_histories(run, rng, tier, viol):
                         viol("real_git_histories_at_a_final_tag", "adding commits (criss-cross merges on the first-parent chain of main) must yield a strictly greater version",
                              {"outputs": outs, "format": out, "history": "tag; side: b1; main: a1 | main merges side | side merges main, main merges side | main: a2"})
                         break
+        # the base tag reaches HEAD only through the SECOND parent of a merge (a release tagged on its branch and merged --no-ff into a main
+        # that moved on), with and without an older tag on the first-parent chain: the bounds are those of the reachable final tag
+        older = f"v{X}.{Y}.{Z - 1}" if Z > 0 else (f"v{X}.{Y - 1}.5" if Y > 0 else f"v{X - 1}.0.0" if X > 0 else None)
+        merged = []
+        for k, with_older in enumerate([False, True]):
+            if with_older and older is None:
+                continue
+            script = [("commit", T)] + ([("tag", older)] if with_older else []) + [("branch", "release/1"), ("commit", T + 10), ("tag", final), ("checkout", "main"),
+                      ("commit", T + 20), ("merge", "release/1", T + 30)]
+            for extra_steps, nm in (([], "merged"), ([("commit", T + 40)], "merged_then_commit"), ([("branch", "develop"), ("commit", T + 40), ("merge", "main", T + 50)], "develop")):
+                pth = os.path.join(root, f"second_parent{k}_{nm}")
+                gitfx.build_repo(pth, script + extra_steps)
+                merged.append((pth, f"{'older tag ' + older + ' on the first commit; ' if with_older else ''}release/1: commit tagged {final}; main: commit, merge --no-ff release/1; {nm}"))
+        for pth, hist in merged:
+            for out in ("semver", "pep440"):
+                rc, so, se = run_procs([(["flow", f"--output-format={out}"], None)], env={"TZ": "UTC"}, cwd=pth)[0]
+                run.evaluations += 1
+                st["runs"] += 1
+                if rc != 0:
+                    viol("real_git_histories_at_a_final_tag", "flow fails although a final tag is reachable (through the second parent of a merge)", {"history": hist, "stderr": se.decode("utf-8", "replace")[-300:]})
+                    continue
+                st["exit0"] += 1
+                o = so.decode("utf-8", "replace").strip()
+                if not (lt(out, lo, o) and lt(out, o, hi)):
+                    viol("real_git_histories_at_a_final_tag", f"X.Y.Z < V < X.Y.(Z+1) violated in the {out} order: the base must be the reachable final tag, whichever parent it is reached through",
+                         {"history": hist, "output": o, "low": lo, "high": hi})
+        # a checkout exactly at the tag with the state overridden on the command line: --distance N / --dirty are the state the version is derived from
+        for ti in range(len(extra_tags)):
+            pth = os.path.join(root, f"r{ti}_clean")
+            for out in ("semver", "pep440"):
+                got = {}
+                for ov in (["--distance=1"], ["--distance=3"], ["--dirty"], ["--distance=2", "--dirty"], ["--distance=0"], ["--distance=3", "--schema=standard-base-prerelease-post-dev"]):
+                    rc, so, se = run_procs([(["flow", f"--output-format={out}"] + ov, None)], env={"TZ": "UTC"}, cwd=pth)[0]
+                    run.evaluations += 1
+                    st["runs"] += 1
+                    o = so.decode("utf-8", "replace").strip() if rc == 0 else None
+                    got[tuple(ov)] = o
+                    if o is None:
+                        viol("real_git_histories_at_a_final_tag", "flow fails at the tag under a state override", {"argv": ov, "stderr": se.decode("utf-8", "replace")[-300:]})
+                    elif ov == ["--distance=0"]:
+                        if o.split("+")[0] != lo:
+                            viol("real_git_histories_at_a_final_tag", "--distance 0 at the tag is the clean tagged state", {"argv": ov, "output": o, "expected": lo})
+                    elif not (lt(out, lo, o) and lt(out, o, hi)):
+                        viol("real_git_histories_at_a_final_tag", f"X.Y.Z < V < X.Y.(Z+1) violated in the {out} order for a checkout at the tag with the state overridden",
+                             {"argv": ov, "output": o, "low": lo, "high": hi})
+                a, b = got.get(("--distance=1",)), got.get(("--distance=3",))
+                if a and b and not lt(out, a, b):
+                    viol("real_git_histories_at_a_final_tag", "a larger --distance must yield a strictly greater version", {"outputs": [a, b], "format": out})
         run.samples.append({"stream": "real_git_histories_at_a_final_tag", "argv": jobs[0][4], "output": results[(jobs[0][2], jobs[0][3], tuple(jobs[0][4]))][1].decode("utf-8", "replace")[:200]})
     finally:
         shutil.rmtree(root, ignore_errors=True)
@@ -288,5 +336,5 @@ RULE = ("requests are `zerv flow` runs (source none) with semver / pep440 text o
         "x post modes x hash lengths x the standard presets that print the pre-release; each output is compared with the model and judged by the PUBLIC "
         "orders of the formats implemented independently in Python (SemVer section 11; PEP 440 standard _cmpkey order): exactness at the tag, strict "
         "two-sided bound, strict growth with distance, fixed point at flow-shaped pre-release tags; the same laws on 40 real repositories through the binary "
-        "(final tag alone or sharing its commit with pre-release tags; clean / staged / modified / untracked / ahead on main, feature, release, develop); "
+        "(final tag alone or sharing its commit with pre-release tags; clean / staged / modified / untracked / ahead on main, feature, release, develop; the tag reached only through the second parent of a merge; the checkout at the tag under --distance / --dirty overrides); "
         "non-trivial = output carries a pre-release/post/dev part")
